@@ -225,6 +225,63 @@ pub fn cpc_row_col(item_bytes: &[u8], seed: u64, lg_k: u8) -> u32 {
     rc
 }
 
+// ---------------------------------------------------------------------------------------------
+// MurmurHash3-x64-128 is a bijection on single 16-byte blocks (every step is invertible): the harness can
+// choose the 128-bit digest and compute the 16-byte item that hashes to it. A `u128` item is fed to the hasher
+// as exactly those 16 little-endian bytes, so arbitrary (h1, h2) - register value 63, column 63, h2 = 0,
+// theta hash 0 or 2^63 - 1, colliding slots - are reachable through the PUBLIC update methods.
+
+const fn inv_odd(a: u64) -> u64 {
+    // Newton iteration for the inverse of an odd number modulo 2^64
+    let mut x = a;
+    let mut i = 0;
+    while i < 6 {
+        x = x.wrapping_mul(2u64.wrapping_sub(a.wrapping_mul(x)));
+        i += 1;
+    }
+    x
+}
+
+fn unfmix64(mut k: u64) -> u64 {
+    k ^= k >> 33;
+    k = k.wrapping_mul(inv_odd(0xc4ceb9fe1a85ec53));
+    k ^= k >> 33;
+    k = k.wrapping_mul(inv_odd(0xff51afd7ed558ccd));
+    k ^= k >> 33;
+    k
+}
+
+/// The 16 bytes whose MurmurHash3-x64-128 under `seed` is exactly (h1, h2).
+pub fn murmur3_preimage16(h1: u64, h2: u64, seed: u64) -> [u8; 16] {
+    const C1: u64 = 0x87c37b91114253d5;
+    const C2: u64 = 0x4cf5ad432745937f;
+    // undo "h1 += h2; h2 += h1" (the last two steps)
+    let b = h2.wrapping_sub(h1);
+    let a = h1.wrapping_sub(b);
+    let (a, b) = (unfmix64(a), unfmix64(b));
+    // undo "h1 += h2; h2 += h1" before fmix
+    let q = b.wrapping_sub(a);
+    let p = a.wrapping_sub(q);
+    let (h1e, h2e) = (p ^ 16, q ^ 16);
+    // undo the block round for h1: h1e = (rotl(seed ^ k1m, 27) + seed) * 5 + 0x52dce729
+    let x = h1e.wrapping_sub(0x52dce729).wrapping_mul(inv_odd(5));
+    let k1m = x.wrapping_sub(seed).rotate_right(27) ^ seed;
+    let k1 = k1m.wrapping_mul(inv_odd(C2)).rotate_right(31).wrapping_mul(inv_odd(C1));
+    // and for h2: h2e = (rotl(seed ^ k2m, 31) + h1e) * 5 + 0x38495ab5
+    let y = h2e.wrapping_sub(0x38495ab5).wrapping_mul(inv_odd(5));
+    let k2m = y.wrapping_sub(h1e).rotate_right(31) ^ seed;
+    let k2 = k2m.wrapping_mul(inv_odd(C1)).rotate_right(33).wrapping_mul(inv_odd(C2));
+    let mut out = [0u8; 16];
+    out[..8].copy_from_slice(&k1.to_le_bytes());
+    out[8..].copy_from_slice(&k2.to_le_bytes());
+    out
+}
+
+/// The `u128` item whose hashed byte stream is `murmur3_preimage16(h1, h2, seed)`.
+pub fn u128_item_for(h1: u64, h2: u64, seed: u64) -> u128 {
+    u128::from_le_bytes(murmur3_preimage16(h1, h2, seed))
+}
+
 /// Self-test against published vectors; exits 2 (infrastructure) if the trusted base is broken.
 pub fn self_test() {
     let fox = b"The quick brown fox jumps over the lazy dog";
@@ -232,7 +289,10 @@ pub fn self_test() {
         && xxh64(b"", 0) == 0xef46db3751d8e999
         && xxh64(b"a", 0) == 0xd24ec4f1a98c6e5b
         && xxh64(b"abc", 0) == 0x44bc2cf5ad770999
-        && xxh64(b"Nobody inspects the spammish repetition", 0) == 0xfbcea83c8a378bf1;
+        && xxh64(b"Nobody inspects the spammish repetition", 0) == 0xfbcea83c8a378bf1
+        && [(0u64, 0u64, 0u64), (u64::MAX, 1, 9001), (0x0123456789abcdef, 0, 12345), (1 << 63, u64::MAX, u64::MAX)]
+            .iter()
+            .all(|&(a, b, sd)| murmur3_x64_128(&murmur3_preimage16(a, b, sd), sd) == (a, b) && Recorder::bytes_of(&u128_item_for(a, b, sd)) == murmur3_preimage16(a, b, sd).to_vec());
     if !ok {
         eprintln!("reference hash self-test failed: trusted base broken");
         std::process::exit(2);
